@@ -129,19 +129,19 @@ statement: assignto                     { $$ = $1; }
          | endstatement                 { $$ = $1; }
          | error                        { $$ = ::sqf::parser::assembly::bison::astnode{}; }
          ;
-assignto: ASSIGN_TO STRING              { $$ = ::sqf::parser::assembly::bison::astnode{ astkind::ASSIGN_TO, $1 }; $$.append(::sqf::parser::assembly::bison::astnode{ astkind::STRING, $1 }); }
+assignto: ASSIGN_TO STRING              { $$ = ::sqf::parser::assembly::bison::astnode{ astkind::ASSIGN_TO, $1 }; $$.append(::sqf::parser::assembly::bison::astnode{ astkind::STRING, $2 }); }
         ;
-assigntolocal: ASSIGN_TO_LOCAL STRING   { $$ = ::sqf::parser::assembly::bison::astnode{ astkind::ASSIGN_TO_LOCAL, $1 }; $$.append(::sqf::parser::assembly::bison::astnode{ astkind::STRING, $1 });  }
+assigntolocal: ASSIGN_TO_LOCAL STRING   { $$ = ::sqf::parser::assembly::bison::astnode{ astkind::ASSIGN_TO_LOCAL, $1 }; $$.append(::sqf::parser::assembly::bison::astnode{ astkind::STRING, $2 });  }
              ;
-getvariable: GET_VARIABLE STRING        { $$ = ::sqf::parser::assembly::bison::astnode{ astkind::GET_VARIABLE, $1 }; $$.append(::sqf::parser::assembly::bison::astnode{ astkind::STRING, $1 });  }
+getvariable: GET_VARIABLE STRING        { $$ = ::sqf::parser::assembly::bison::astnode{ astkind::GET_VARIABLE, $1 }; $$.append(::sqf::parser::assembly::bison::astnode{ astkind::STRING, $2 });  }
            ;
-callunary: CALL_UNARY IDENT             { $$ = ::sqf::parser::assembly::bison::astnode{ astkind::CALL_UNARY, $1 }; $$.append(::sqf::parser::assembly::bison::astnode{ astkind::IDENT, $1 }); }
+callunary: CALL_UNARY IDENT             { $$ = ::sqf::parser::assembly::bison::astnode{ astkind::CALL_UNARY, $1 }; $$.append(::sqf::parser::assembly::bison::astnode{ astkind::IDENT, $2 }); }
          ;
-callnular: CALL_NULAR IDENT             { $$ = ::sqf::parser::assembly::bison::astnode{ astkind::CALL_NULAR, $1 }; $$.append(::sqf::parser::assembly::bison::astnode{ astkind::IDENT, $1 }); }
+callnular: CALL_NULAR IDENT             { $$ = ::sqf::parser::assembly::bison::astnode{ astkind::CALL_NULAR, $1 }; $$.append(::sqf::parser::assembly::bison::astnode{ astkind::IDENT, $2 }); }
          ;
-callbinary: CALL_BINARY IDENT           { $$ = ::sqf::parser::assembly::bison::astnode{ astkind::CALL_BINARY, $1 }; $$.append(::sqf::parser::assembly::bison::astnode{ astkind::IDENT, $1 }); }
+callbinary: CALL_BINARY IDENT           { $$ = ::sqf::parser::assembly::bison::astnode{ astkind::CALL_BINARY, $1 }; $$.append(::sqf::parser::assembly::bison::astnode{ astkind::IDENT, $2 }); }
           ;
-push: PUSH value                        { $$ = ::sqf::parser::assembly::bison::astnode{ astkind::PUSH, $1 }; $$.append($1); }
+push: PUSH value                        { $$ = ::sqf::parser::assembly::bison::astnode{ astkind::PUSH, $1 }; $$.append($2); }
     ;
 endstatement: END_STATEMENT             { $$ = ::sqf::parser::assembly::bison::astnode{ astkind::END_STATEMENT, $1 }; }
             ;
